@@ -174,6 +174,14 @@ class _Canon(ast.NodeTransformer):
                 isinstance(e, ast.Constant) and e.value == -1)
             if minus1(stop_) and minus1(step_):
                 return ast.Call(ast.Name("reversed", ast.Load()), [ast.Call(ast.Name("range", ast.Load()), [ast.BinOp(a_, ast.Add(), ast.Constant(1))], [])], [])
+        if isinstance(node.func, ast.Name) and node.func.id in ("len", "zip", "enumerate", "all", "any", "sum", "min", "max", "sorted", "reversed", "iter") and node.args:
+            # a consumer of the elements does not care whether it is handed the sequence or a tuple / list made of it on the spot
+            def _unwrap(a: ast.expr) -> ast.expr:
+                while isinstance(a, ast.Call) and isinstance(a.func, ast.Name) and a.func.id in ("tuple", "list") and len(a.args) == 1 and not a.keywords and not isinstance(
+                        a.args[0], (ast.GeneratorExp, ast.Starred)):
+                    a = a.args[0]
+                return a
+            node.args = [_unwrap(a) for a in node.args]
         if isinstance(node.func, ast.Name) and node.func.id in ("isinstance", "isa") and len(node.args) == 2:
             cls = sorted(_isinstance_classes(node.args[1]), key=ast.unparse)
             second = cls[0] if len(cls) == 1 else ast.Tuple(cls, ast.Load())
@@ -207,6 +215,30 @@ class _CanonTree(_Canon):
                     ast.copy_location(ch, node)
         return new
 
+
+    def visit_For(self, node: ast.For) -> ast.AST:
+        node = self.generic_visit(node)  # type: ignore[assignment]
+        assert isinstance(node, ast.For)
+        # for x in (e for e in D if c):  ->  for x in D: if not c[x/e]: continue   (a filtered domain written as a generator)
+        it = node.iter
+        if isinstance(it, (ast.GeneratorExp, ast.ListComp)) and len(it.generators) == 1 and it.generators[0].ifs and not it.generators[0].is_async and isinstance(
+                it.generators[0].target, ast.Name) and isinstance(it.elt, ast.Name) and it.elt.id == it.generators[0].target.id and isinstance(node.target, ast.Name):
+            g = it.generators[0]
+            ev, xv = g.target.id, node.target.id  # type: ignore[attr-defined]
+            clash = any(isinstance(n, ast.Name) and n.id == xv for c in g.ifs for n in ast.walk(c)) and ev != xv
+            if not clash:
+                class _Ren(ast.NodeTransformer):
+                    def visit_Name(self, n: ast.Name) -> ast.AST:
+                        return ast.copy_location(ast.Name(xv, n.ctx), n) if n.id == ev else n
+                cond = g.ifs[0] if len(g.ifs) == 1 else ast.BoolOp(ast.And(), list(g.ifs))
+                cond = _Ren().visit(copy.deepcopy(cond))
+                guard = ast.If(_Canon().visit(ast.UnaryOp(ast.Not(), cond)), [ast.Continue()], [])
+                for n in ast.walk(guard):
+                    if isinstance(n, (ast.expr, ast.stmt)):
+                        ast.copy_location(n, node)
+                node.iter = g.iter
+                node.body = [guard, *node.body]
+        return node
 
     def visit_If(self, node: ast.If) -> ast.AST:
         node = self.generic_visit(node)  # type: ignore[assignment]
